@@ -462,11 +462,6 @@ theorem run_cancelBefore_ctx (c : Cfg) (hc : c.cancelBefore = true)
 
 /-! ### cancellation "between files" -/
 
-/-- what a scan must do when its context is cancelled right after the j-th `handleFile` call has returned
-(j ≥ 1): the calls so far are complete, nothing later is attempted, and the scan fails iff a call remained -/
-def cancelBetween (j : Nat) (T : List (List Call)) : List Call × Err × Nat :=
-  ((T.take j).flatten, (if T.drop j = [] then .none else .ctx), j + (if T.drop j = [] then 0 else 1))
-
 /-- A cancellation from inside ANY `Extract` of the j-th `handleFile` call is observably the same as a
 cancellation between that call and the next one: the scan cannot tell at which moment of a call the context
 was cancelled, only between calls is it looked at. -/
